@@ -90,6 +90,7 @@ structure Row where
   n : Nat
   ent : Ent
   text : List Word
+  str : Bool         -- the JSON of the row has a string (possibly empty): `extract_json` gives a non-empty text
   ver : Nat          -- logical time of the last modification
   ctick : Nat        -- creation time
   slot : Slot
@@ -167,6 +168,10 @@ def writeUpdate (unguarded index : Bool) (old : Row) (new : Row) (prevText : Opt
            idx := if index then idxAdd old.slot new.text i0 else i0,
            docs := if index then d0 ++ [old.slot] else d0 }
 
+/-- the previous text a local mutation passes to `Node::write`: `extract_json` of the stored JSON, only when it is
+    not empty (`mutation_query.rs:144-153`) — i.e. when the JSON has a string, even an empty one -/
+def prevOf (r : Row) : Option (List Word) := if r.str || !r.text.isEmpty then some r.text else none
+
 /-- `Node::write` for a new row -/
 def writeInsert (index : Bool) (new : Row) (s : Site) : Site :=
   let slot := nextSlot s.rows
@@ -181,6 +186,8 @@ def dropEntries (docs : List Slot) (r : Row) (idx : List (Slot × Word)) : List 
 
 /-- a search for `t` meets an entry whose slot has no document record: SQLite answers "database disk image is
     malformed" instead of a result (the rank of the entry cannot be computed), whatever the entity searched -/
+-- (a search placed on a nested field reaches the index through the children of each parent and only fails when
+--  one of THEM holds such an entry: not modelled, the nested operations never fail in the model)
 def poisoned (s : Site) (t : Word) : Bool :=
   s.idx.any fun p => p.2 = t && !s.docs.contains p.1
 
@@ -225,6 +232,7 @@ def nmatching (s : Site) (t : Word) : List (Nat × List Nat) :=
 inductive Op where
   | model (s : Nat) (v : Nat)
   | new (s n : Nat) (e : Ent) (text : List Word)
+  | newx (s n : Nat) (e : Ent)      -- a row created without any text field
   | upd (s n : Nat) (text : List Word)
   | clr (s n : Nat)
   | del (s n : Nat)
@@ -249,8 +257,19 @@ def toggleDocs (s : Site) (on : Ent → Bool) : List Slot :=
   (s.docs.filter fun x => !(s.rows.any fun r => r.slot = x && (s.indexOn r.ent != on r.ent))) ++
   ((s.rows.filter fun r => on r.ent && !(s.indexOn r.ent)).map (·.slot))
 
-/-- local creation / update / deletion and model update at one site; `none` = not applicable (skipped) -/
-def localOp (d : Defects) (tick : Nat) (usedRows : List Nat) (s : Site) : Op → Option Site
+/-- a new row -/
+def newOp (tick : Nat) (usedRows : List Nat) (s : Site) (n : Nat) (e : Ent) (text : List Word) (str : Bool) :
+    Option Site :=
+  -- (a used row number is in `usedRows`; the second test is redundant in reachable states)
+  if usedRows.contains n || e ≥ 2 || (findRow n s.rows).isSome then none
+  else
+    let row : Row := { n := n, ent := e, text := text, str := str, ver := tick, ctick := tick, slot := 0 }
+    some { writeInsert (s.indexOn e) row s with logged := addLogged e s.logged }
+
+/-- local creation / update / deletion and model update at one site; `none` = not applicable (skipped).
+    `multi`: the history has two sites — a text is then emptied with the empty string instead of null, and a row
+    "without text" is created with the empty string (a peer refuses explicit nulls) -/
+def localOp (d : Defects) (multi : Bool) (tick : Nat) (usedRows : List Nat) (s : Site) : Op → Option Site
   | .model _ v =>
     if v ≥ 4 then none
     else if d.toggleIgnored then some { s with declared := v }
@@ -262,25 +281,21 @@ def localOp (d : Defects) (tick : Nat) (usedRows : List Nat) (s : Site) : Op →
       -- current rows, one whose index is switched off loses its entries
       some { s with declared := v, indexOn := declaredOn v, idx := toggleIdx s (declaredOn v),
                     docs := toggleDocs s (declaredOn v) }
-  | .new _ n e text =>
-    -- (a used row number is in `usedRows`; the second test is redundant in reachable states)
-    if usedRows.contains n || e ≥ 2 || (findRow n s.rows).isSome then none
-    else
-      let row : Row := { n := n, ent := e, text := text, ver := tick, ctick := tick, slot := 0 }
-      some { writeInsert (s.indexOn e) row s with logged := addLogged e s.logged }
+  | .new _ n e text => newOp tick usedRows s n e text true
+  | .newx _ n e => newOp tick usedRows s n e [] multi
   | .upd _ n text =>
     match findRow n s.rows with
     | none => none
     | some old =>
-      let prev := if old.text.isEmpty then none else some old.text
-      some { writeUpdate d.deleteUnguarded (s.indexOn old.ent) old { old with text := text, ver := tick } prev s with
+      some { writeUpdate d.deleteUnguarded (s.indexOn old.ent) old
+               { old with text := text, str := true, ver := tick } (prevOf old) s with
                logged := addLogged old.ent s.logged }
   | .clr _ n =>
     match findRow n s.rows with
     | none => none
     | some old =>
-      let prev := if old.text.isEmpty then none else some old.text
-      some { writeUpdate d.deleteUnguarded (s.indexOn old.ent) old { old with text := [], ver := tick } prev s with
+      some { writeUpdate d.deleteUnguarded (s.indexOn old.ent) old
+               { old with text := [], str := multi, ver := tick } (prevOf old) s with
                logged := addLogged old.ent s.logged }
   | .del _ n =>
     match findRow n s.rows with
@@ -299,8 +314,7 @@ def localOp (d : Defects) (tick : Nat) (usedRows : List Nat) (s : Site) : Op →
       else if s.refs.contains (n, m) then some s          -- nothing changes: the parent is not rewritten
       else
         -- the parent is re-dated and rewritten: its own text is removed and added again
-        let prev := if old.text.isEmpty then none else some old.text
-        some { writeUpdate d.deleteUnguarded (s.indexOn old.ent) old { old with ver := tick } prev s with
+        some { writeUpdate d.deleteUnguarded (s.indexOn old.ent) old { old with ver := tick } (prevOf old) s with
                  refs := s.refs ++ [(n, m)], logged := addLogged old.ent s.logged }
     | _, _ => none
   | _ => none
@@ -361,7 +375,7 @@ inductive Out where
   | hits (rows : List Nat)
   | all (res : List (Ent × Word × Option (List Nat)))          -- `none`: that search failed
   | nhits (res : List (Nat × List Nat))
-  | nall (res : List (Word × Option (List (Nat × List Nat))))
+  | nall (res : List (Word × List (Nat × List Nat)))
   | failed                                                       -- the search failed (SQL error)
 deriving Repr, DecidableEq
 
@@ -384,18 +398,17 @@ def stepNested (st : State) (op : Op) : State × Out :=
       match st.sites[si]? with
       | none => (st, .skip)
       | some s =>
-        match localOp st.d st.tick st.usedRows s (.link si n m) with
+        match localOp st.d (st.sites.length != 1) st.tick st.usedRows s (.link si n m) with
         | none => (st, .skip)
         | some s1 => ({ st with sites := st.sites.set si s1, tick := st.tick + 1 }, .ok)
     | .qn si t =>
       match st.sites[si]? with
       | none => (st, .skip)
-      | some s => (st, if poisoned s t then .failed else .nhits (nsearch s t))
+      | some s => (st, .nhits (nsearch s t))
     | .qnall si =>
       match st.sites[si]? with
       | none => (st, .skip)
-      | some s => (st, .nall ((st.words.map fun t =>
-          (t, if poisoned s t then none else some (nsearch s t))).filter fun x => x.2 != some []))
+      | some s => (st, .nall ((st.words.map fun t => (t, nsearch s t)).filter fun x => !x.2.isEmpty))
     | _ => (st, .skip)
 
 def step (st : State) (op : Op) : State × Out :=
@@ -421,23 +434,31 @@ def step (st : State) (op : Op) : State × Out :=
     match st.sites[si]? with
     | none => (st, .skip)
     | some s =>
-      match localOp st.d st.tick st.usedRows s (.model si v) with
+      match localOp st.d (st.sites.length != 1) st.tick st.usedRows s (.model si v) with
       | none => (st, .skip)
       | some s1 => ({ st with sites := st.sites.set si s1 }, .ok)
   | .new si n e text =>
     match st.sites[si]? with
     | none => (st, .skip)
     | some s =>
-      match localOp st.d st.tick st.usedRows s (.new si n e text) with
+      match localOp st.d (st.sites.length != 1) st.tick st.usedRows s (.new si n e text) with
       | none => (st, .skip)
       | some s1 =>
         ({ st with sites := st.sites.set si s1, tick := st.tick + 1, usedRows := st.usedRows ++ [n],
                    words := noteWords text st.words }, .ok)
+  | .newx si n e =>
+    match st.sites[si]? with
+    | none => (st, .skip)
+    | some s =>
+      match localOp st.d (st.sites.length != 1) st.tick st.usedRows s (.newx si n e) with
+      | none => (st, .skip)
+      | some s1 =>
+        ({ st with sites := st.sites.set si s1, tick := st.tick + 1, usedRows := st.usedRows ++ [n] }, .ok)
   | .upd si n text =>
     match st.sites[si]? with
     | none => (st, .skip)
     | some s =>
-      match localOp st.d st.tick st.usedRows s (.upd si n text) with
+      match localOp st.d (st.sites.length != 1) st.tick st.usedRows s (.upd si n text) with
       | none => (st, .skip)
       | some s1 =>
         ({ st with sites := st.sites.set si s1, tick := st.tick + 1, words := noteWords text st.words }, .ok)
@@ -445,14 +466,14 @@ def step (st : State) (op : Op) : State × Out :=
     match st.sites[si]? with
     | none => (st, .skip)
     | some s =>
-      match localOp st.d st.tick st.usedRows s (.clr si n) with
+      match localOp st.d (st.sites.length != 1) st.tick st.usedRows s (.clr si n) with
       | none => (st, .skip)
       | some s1 => ({ st with sites := st.sites.set si s1, tick := st.tick + 1 }, .ok)
   | .del si n =>
     match st.sites[si]? with
     | none => (st, .skip)
     | some s =>
-      match localOp st.d st.tick st.usedRows s (.del si n) with
+      match localOp st.d (st.sites.length != 1) st.tick st.usedRows s (.del si n) with
       | none => (st, .skip)
       | some s1 => ({ st with sites := st.sites.set si s1, tick := st.tick + 1 }, .ok)
   | .link si n m => stepNested st (.link si n m)
